@@ -42,7 +42,13 @@ def compounds():
             ("A*Cc", A * Cc), ("D**2", D ** 2), ("D.conj()", D.conj()), ("D.H*D", D.H * D), ("-A", -A),
             ("VStack", pylops.VStack([A, B])), ("HStack", pylops.HStack([A, B])), ("BlockDiag", pylops.BlockDiag([A, Cc])),
             ("A.apply_columns", A.apply_columns([0, 2])), ("Cc.toreal", Cc.toreal()), ("row", zoo._leaf(("c17", "r"), 1, 4)),
-            ("col", zoo._leaf(("c17", "c"), 4, 1, True)), ("(A.H).H", A.H.H), ("D.T.T", D.T.T)]
+            ("col", zoo._leaf(("c17", "c"), 4, 1, True)), ("(A.H).H", A.H.H), ("D.T.T", D.T.T),
+            # wide operators (adjoint + conjugate path of todense) under complex scalars / products / wrappers
+            ("(2-3j)*A", (2 - 3j) * A), ("A*(1+1j)", A * (1 + 1j)), ("1j*row", 1j * zoo._leaf(("c17", "r"), 1, 4)),
+            ("1j*Restriction", 1j * pylops.Restriction(8, np.array([1, 4, 6]), dtype="complex128")),
+            ("(1+2j)*(R@M)", (1 + 2j) * (pylops.Restriction(5, np.array([0, 3]), dtype="complex128") @ zoo._leaf(("c17", "M"), 5, 7, True))),
+            ("Cc.H (wide)", Cc.H), ("Cc.T (wide)", Cc.T), ("Cc.H.conj()", Cc.H.conj()), ("(Cc.H)*D2", Cc.H * zoo._leaf(("c17", "D2"), 4, 4, True)),
+            ("HStack cplx", pylops.HStack([D, 2j * D])), ("-(1j*A)", -(1j * A)), ("(1j*A)**1", (1j * zoo._leaf(("c17", "S"), 3, 3)) ** 2)]
     return out
 
 
